@@ -111,7 +111,23 @@ def check_tags(model: Model, run: Run, folder: Folder) -> bool:
     ok_all = True
     sites = writer_tag_sites(model, folder)
     run.floor("writer tag sites", len(sites), 20)
+    from ..srcmodel import enclosing_statement, reaching_constants
+    rc_cache: Dict[str, dict] = {}
     for fi, node, tag in sites:
+        # locals that hold a literal at this statement (`choice = 1` just before the write) are read as that literal
+        if any(isinstance(x, ast.Name) and x.id not in fi.params() for x in ast.walk(tag)):
+            rc = rc_cache.setdefault(fi.qualname, reaching_constants(fi.node))
+            st_ = enclosing_statement(fi.node, node)
+            env_ = rc.get(id(st_), {}) if st_ is not None else {}
+            if env_ and any(isinstance(x, ast.Name) and x.id in env_ for x in ast.walk(tag)):
+                import copy as _copy
+
+                class _S(ast.NodeTransformer):
+                    def visit_Name(self, n: ast.Name):
+                        if isinstance(n.ctx, ast.Load) and n.id in env_:
+                            return ast.copy_location(_copy.deepcopy(env_[n.id]), n)
+                        return n
+                tag = _S().visit(_copy.deepcopy(tag))
         classes = [fi.cls] if fi.cls else [None]
         if fi.cls:
             classes = [c for c in model.subclasses(fi.cls) if model.find_method(c, fi.name) is fi] or [fi.cls]
